@@ -25,6 +25,9 @@ use tracing::trace;
 
 #[cfg(test)]
 mod tests;
+#[cfg(all(test, feature = "verif"))]
+#[path = "/verif/harness/composer/mod.rs"]
+mod verif;
 
 #[derive(Debug, thiserror::Error)]
 enum SizedBundleError {
